@@ -65,6 +65,18 @@ case("C06", "C06-m-droppage", "mutant", "tag listing stops after the first extra
 case("C06", "C06-b-explicit-unlock", "benign", "TagDelete with explicit unlock on its single path instead of defer",
      edits=[("scheme/ocidir/tag.go", "func (o *OCIDir) TagDelete(ctx context.Context, r ref.Ref) error {\n\to.mu.Lock()\n\tdefer o.mu.Unlock()\n\treturn o.tagDelete(ctx, r)\n", "func (o *OCIDir) TagDelete(ctx context.Context, r ref.Ref) error {\n\to.mu.Lock()\n\terr := o.tagDelete(ctx, r)\n\to.mu.Unlock()\n\treturn err\n")])
 
+case("C06", "C06-seed2", "mutant", "seeded: indexGet merges the exact and the suffix lookup into one pass",
+     patch="seeded/C06-2/patch.diff", expect=[("C06.R6", "indexGet", "loose ref.name match")])
+case("C06", "C06-b-exacthelper", "benign", "indexGet's exact pass moved into a helper",
+     edits=[("scheme/ocidir/ocidir.go", "\t\tfor _, im := range index.Manifests {\n\t\t\tif name, ok := im.Annotations[aOCIRefName]; ok && name == r.Tag {\n\t\t\t\treturn im, nil\n\t\t\t}\n\t\t}\n\t\t// fall back",
+             "\t\tif im, ok := indexFindExact(index, r.Tag); ok {\n\t\t\treturn im, nil\n\t\t}\n\t\t// fall back"),
+            ("scheme/ocidir/ocidir.go", "func indexSet(index *v1.Index, r ref.Ref, d descriptor.Descriptor) error {",
+             "func indexFindExact(index v1.Index, tag string) (descriptor.Descriptor, bool) {\n\tfor _, im := range index.Manifests {\n\t\tif name, ok := im.Annotations[aOCIRefName]; ok && name == tag {\n\t\t\treturn im, true\n\t\t}\n\t}\n\treturn descriptor.Descriptor{}, false\n}\n\nfunc indexSet(index *v1.Index, r ref.Ref, d descriptor.Descriptor) error {")])
+case("C06", "C06-m-suffixfirst", "mutant", "indexGet tries the suffix match before the exact match",
+     edits=[("scheme/ocidir/ocidir.go", "\t\tfor _, im := range index.Manifests {\n\t\t\tif name, ok := im.Annotations[aOCIRefName]; ok && name == r.Tag {\n\t\t\t\treturn im, nil\n\t\t\t}\n\t\t}\n\t\t// fall back to support full image name in annotation\n\t\tfor _, im := range index.Manifests {\n\t\t\tif name, ok := im.Annotations[aOCIRefName]; ok && strings.HasSuffix(name, \":\"+r.Tag) {\n\t\t\t\treturn im, nil\n\t\t\t}\n\t\t}\n",
+             "\t\tfor _, im := range index.Manifests {\n\t\t\tif name, ok := im.Annotations[aOCIRefName]; ok && strings.HasSuffix(name, \":\"+r.Tag) {\n\t\t\t\treturn im, nil\n\t\t\t}\n\t\t}\n\t\tfor _, im := range index.Manifests {\n\t\t\tif name, ok := im.Annotations[aOCIRefName]; ok && name == r.Tag {\n\t\t\t\treturn im, nil\n\t\t\t}\n\t\t}\n")],
+     expect=[("C06.R6", "indexGet", "loose ref.name match")])
+
 # ---------------------------------------------------------------- C07
 case("C07", "C07-D4", "mutant", "historical defect D4 re-introduced: oci-layout rewritten in place with os.Create",
      patch="selftest/regress/D4.diff", expect=[("C07.R1", "writeIndex", "os.Create"), ("C07.R1", "initIndex", "os.Create")])
@@ -237,6 +249,11 @@ case("C18", "C18-m-backupsrc", "mutant", "backup copies the new source image ins
      expect=[("C18.R3", "processRef", "")])
 case("C18", "C18-b-noncapture", "benign", "filters wrapped in a non-capturing group",
      edits=[("cmd/regsync/root.go", "\t\t\texp, err := regexp.Compile(\"^\" + filter + \"$\")\n\t\t\tif err != nil {\n\t\t\t\treturn result, err\n\t\t\t}\n\t\t\tfor i := range in {", "\t\t\texp, err := regexp.Compile(\"^(?:\" + filter + \")$\")\n\t\t\tif err != nil {\n\t\t\t\treturn result, err\n\t\t\t}\n\t\t\tfor i := range in {")])
+
+case("C18", "C18-seed2", "mutant", "seeded: platform digest cached under the index digest alone",
+     patch="seeded/C18-2/patch.diff", expect=[("C18.R4", "getPlatformDigest", "store into cache")])
+case("C18", "C18-b-platkey", "benign", "platform digest cached under index digest and platform string",
+     patch="selftest/variants/C18-b-platkey.diff")
 
 # ---------------------------------------------------------------- C20
 case("C20", "C20-D11", "mutant", "historical defect D11 re-introduced: ManifestDelete uses an unvalidated digest as a file name",
